@@ -134,6 +134,9 @@ pub struct Beh {
     pub adv: Vec<Adv>,
     #[serde(default)]
     pub expect: Expect,
+    /// C12: canonical-serialization round trips to perform: (artefact, mode), mode = 2*compress + validate
+    #[serde(default)]
+    pub ser: Vec<(String, i64)>,
     /// free-form tag from the spec (which branch generated this)
     #[serde(default)]
     pub tag: String,
@@ -165,6 +168,10 @@ pub struct Obs {
     pub ops: Vec<OpObs>,
     /// adversary moves the harness could not apply (not applicable to this scheme/shape)
     pub skipped_adv: Vec<String>,
+    /// C12: failed serialization laws (empty = all round trips fine)
+    pub ser_errors: Vec<String>,
+    /// C12: number of round trips / truncated prefixes tried
+    pub ser_checks: usize,
 }
 
 #[derive(Serialize, Clone, Debug)]
